@@ -16,13 +16,13 @@ CLAIMED = {
    note="the generator encodes which trees rrss's greedy grammar can express (DESIGN 1.3, Appendix B); a wrong exclusion would show as a rejected rendering, i.e. an alarm to triage, not a silent pass",
    ref="5/C02"),
  "C03": dict(
-   technique="property-based testing: differential against an independent reference interpreter; exhaustive operator x 48-value-universe table sweep plus random nested expressions",
-   text="Every cell of every operator table over a 48-value universe (all kinds and boundaries) is executed and compared with the reference model through a kind-separating probe triple (exhaustive for that universe), then 300k random nested expressions in seven statement positions (quick).",
+   technique="property-based testing: differential against an independent reference interpreter; exhaustive operator x 50-value-universe table sweep plus random nested expressions",
+   text="Every cell of every operator table over a 50-value universe (all kinds and boundaries) is executed and compared with the reference model through a kind-separating probe triple (exhaustive for that universe), then 300k random nested expressions in seven statement positions (quick).",
    note="reference model transcribed from the language rules (DESIGN Appendix A) and validated cell by cell; std f64 formatting/parsing trusted; error kinds not compared",
    ref="5/C03"),
  "C14": dict(
    technique="property-based testing: metamorphic/algebraic laws between runs of rrss, exhaustive over all ordered pairs of the value universe plus random pairs",
-   text="For all 2304 ordered pairs of the universe (exhaustive) and 200k random pairs (quick): symmetry of is, isnt/is not/ain't = negation, < vs >, <= vs >= incl. error symmetry, (<= and >=) = is when ordered, not/and/or/nor vs truthiness observed by if, compound assignment = expansion, build^n knock^n restores; both as programs and through Val's public methods. No model involved.",
+   text="For all 2500 ordered pairs of the universe (exhaustive) and 200k random pairs (quick): symmetry of is, isnt/is not/ain't = negation, < vs >, <= vs >= incl. error symmetry, (<= and >=) = is when ordered, not/and/or/nor vs truthiness observed by if, compound assignment = expansion, build^n knock^n restores; both as programs and through Val's public methods. No model involved.",
    note="restoration by build/knock is only demanded where every intermediate sum is exactly representable (integers, dyadic fractions; not -0), otherwise IEEE rounding decides, not rrss",
    ref="5/C14"),
  "C12": dict(
